@@ -104,6 +104,26 @@ func Index() *Prog {
 	)
 }
 
+// Index2: two block-index modules computed by the same segment job, sharing the key name "k" on different blocks
+// (idxa: even blocks; idxb: blocks = 1 mod 3), and modules filtered on that key through each of them.
+func Index2() *Prog {
+	return mk("index2", map[string]*Body{
+		"idxa": {Keys: []KeyT{{If: Every(2, 0), Key: Lit("k")}, {If: Every(3, 0), Key: Lit("a3")}}},
+		"idxb": {Keys: []KeyT{{If: Every(3, 1), Key: Lit("k")}, {If: Every(5, 0), Key: Lit("b5")}}},
+		"fa":   {Emit: Cat(Lit("fa@"), Num())},
+		"fb":   {Emit: Cat(Lit("fb@"), Num())},
+		"fs":   {Ops: []OpT{{T: "w", Key: Lit("cnt"), Val: Lit("1"), Ord: 0}, {T: "w", Key: Lit("last"), Val: Num(), Ord: 0}}},
+		"m":    {Emit: Cat(Num(), Lit(" fa="), In("fa"), Lit(" fb="), In("fb"), Lit(" cnt="), Get(0, "last", Lit("cnt"), 0), Lit(" last="), Get(0, "last", Lit("last"), 0))},
+	}, "m",
+		modgen.Index("idxa", 0, modgen.Src()),
+		modgen.Index("idxb", 0, modgen.Src()),
+		modgen.WithFilter(modgen.Map("fa", 0, modgen.Src()), "idxa", "k"),
+		modgen.WithFilter(modgen.Map("fb", 0, modgen.Src()), "idxb", "k || b5"),
+		modgen.WithFilter(modgen.Store("fs", 0, pAdd, "bigint", modgen.Src()), "idxb", "k"),
+		modgen.Map("m", 0, modgen.Src(), modgen.MapIn("fa"), modgen.MapIn("fb"), modgen.StoreIn("fs", false)),
+	)
+}
+
 // ClockSparse: a mapper that is empty on most blocks (skip_empty_output), a store fed by it, a clock-only store and
 // a params-only map next to them; the output map reads everything.
 func ClockSparse(init uint64) *Prog {
